@@ -38,6 +38,9 @@ func (m *Machine) fire(rules []*Rule) ctl {
 	for _, r := range rules {
 		if r.Pattern != nil {
 			v, c := m.Eval(r.Pattern)
+			if c == cNext {
+				return cNone // next raised while the pattern is evaluated (in a callee, a match body) abandons the element
+			}
 			if c != cNone {
 				return c
 			}
